@@ -146,19 +146,70 @@ def _check_add_user(ctx: Ctx) -> None:
     fr = M.func(CE, 'CellBase.add_random_user')
     q = 'CellBase.add_random_user'
     ctx.instance('C19.c', q)
-    loops = [n for n in walk_no_nested(fr.node) if isinstance(n, ast.While)]
-    ok = False
-    detail: Dict = {}
-    if len(loops) == 1:
-        t = loops[0].test
-        disj = t.values if isinstance(t, ast.BoolOp) and isinstance(t.op, ast.Or) else [t]
-        has_cont = any(isinstance(d, ast.UnaryOp) and isinstance(d.op, ast.Not) and is_guard(d.operand) for d in disj)
-        has_dist = any(isinstance(d, ast.Compare) and isinstance(d.ops[0], ast.Lt) and 'calc_dist' in norm(d.left)
-                       and 'min_dist_ratio' in norm(d.comparators[0]) for d in disj)
-        goes_through = any(isinstance(n, ast.Call) and is_self_attr(n.func, sn) == 'add_user' for n in ast.walk(fr.node))
-        detail = {'loop_test': norm(t), 'containment_disjunct': has_cont, 'min_distance_disjunct': has_dist,
-                  'ends_in_add_user': goes_through}
-        ok = has_cont and has_dist and goes_through
+    # every path that reaches the guarded entry add_user(u) has passed, for the u drawn last, BOTH the containment test
+    # (true) and the minimum-distance test (not closer) - whatever the loop form (while <reject>, while True/continue/break)
+    from ..astutil import expander
+    sn2 = fr.self_name or 'self'
+    adds = [n for n in walk_no_nested(fr.node) if isinstance(n, ast.Call) and is_self_attr(n.func, sn2) == 'add_user']
+    if len(adds) != 1 or not adds[0].args or not isinstance(adds[0].args[0], ast.Name):
+        ctx.obligation('C19.c', q, False, {'add_user_calls': len(adds)})
+        ctx.violation('C19.c', q, 'the random user does not enter through exactly one add_user(<user>) call', fr.path, fr.lineno,
+                      operand='rejection-loop')
+        return
+    user = adds[0].args[0].id
+
+    def inside_test(t: ast.AST) -> bool:
+        return isinstance(t, ast.Call) and is_self_attr(t.func, sn2) == 'is_point_inside_shape' and len(t.args) == 1 \
+            and norm(t.args[0]) == user + '.pos'
+
+    def dist_cmp(t: ast.AST):
+        """'lt' if t is  dist(user) < min_dist_ratio * radius  ('ge' for the complement), else None."""
+        if not (isinstance(t, ast.Compare) and len(t.ops) == 1):
+            return None
+        l, r, op = t.left, t.comparators[0], t.ops[0]
+        def is_dist(e): return isinstance(e, ast.Call) and is_self_attr(e.func, sn2) == 'calc_dist' and len(e.args) == 1 and norm(e.args[0]) == user
+        def is_thr(e): return norm(e).replace(' ', '').strip('()') in ('min_dist_ratio*%s.radius' % sn2, '%s.radius*min_dist_ratio' % sn2)
+        if is_dist(l) and is_thr(r):
+            return {'Lt': 'lt', 'GtE': 'ge'}.get(type(op).__name__)
+        if is_thr(l) and is_dist(r):
+            return {'Gt': 'lt', 'LtE': 'ge'}.get(type(op).__name__)
+        return None
+
+    FL = ['inside', 'outside', 'close', 'far']
+
+    def redraw(s_: ast.stmt) -> bool:
+        # the user is rebound, or its position is overwritten: earlier test results no longer describe it
+        if not isinstance(s_, (ast.Assign, ast.AnnAssign, ast.AugAssign)):
+            return False
+        tg = s_.targets if isinstance(s_, ast.Assign) else [s_.target]
+        for t_ in tg:
+            for x in (t_.elts if isinstance(t_, (ast.Tuple, ast.List)) else [t_]):
+                if isinstance(x, ast.Name) and x.id == user:
+                    return True
+                if isinstance(x, ast.Attribute) and isinstance(x.value, ast.Name) and x.value.id == user and x.attr in ('pos', '_pos'):
+                    return True
+        return False
+
+    itr = FlagInterp(fr, ExcHierarchy(M), test_rules=[
+        (inside_test, ['inside'], ['outside']),
+        (lambda t: dist_cmp(t) == 'lt', ['close'], ['far']),
+        (lambda t: dist_cmp(t) == 'ge', ['far'], ['close']),
+    ], call_rules=[(lambda c: c is adds[0], ['entered'])], kill_rules=[(redraw, FL)], decompose=True, expand=expander(fr))
+    itr.run(FlagInterp.start())
+    entries = [st for k, n, st in itr.events if k == 'call']
+    flat_states = [el for st in entries for el in st]
+    missing_inside = any('inside' not in el for el in flat_states)
+    missing_far = any('far' not in el for el in flat_states)
+    detail = {'states_at_add_user': sorted(sorted(el) for el in flat_states)[:6], 'user': user,
+              'containment_passed': not missing_inside, 'min_distance_passed': not missing_far}
+    if not flat_states:
+        ctx.error('C19.c: add_user of add_random_user is not reachable in the path analysis (cannot tell)')
+    ok = not missing_inside and not missing_far
+    # a test the recognisers do not know, on a path that lacks a flag, means "cannot tell", not "violated"
+    if not ok:
+        odd = [norm(a_)[:60] for a_ in itr.unrecognised_atoms if user in norm(a_) or 'dist' in norm(a_)]
+        if odd:
+            ctx.error('C19.c: the acceptance tests of add_random_user are not all recognised (%s): cannot tell' % odd[:3])
     ctx.obligation('C19.c', q, ok, detail)
     if not ok:
         ctx.violation('C19.c', q, 'the rejection loop does not resample while (outside the cell) or (closer than '
